@@ -106,15 +106,15 @@ Definition QAttach : option nat -> L -> Prop :=
 Lemma safe_attach t fuel l : Idle None O l -> safe t (attach fuel t) l QAttach.
 Proof.
   intros HI. unfold attach.
-  cbv beta; apply safe_act_keep. intros g a tr HInv Hv. cbn [a_proc_faa fst snd]. split; [acc_same|].
-  cbv beta; apply safe_act_upd. intros g1 a1 tr1 HInv1 Hv1. cbn [a_head_ld fst snd vl].
+  cbv beta iota; apply safe_act_keep. intros g a tr HInv Hv. cbn [a_proc_faa fst snd]. split; [acc_same|].
+  cbv beta iota; apply safe_act_upd. intros g1 a1 tr1 HInv1 Hv1. cbn [a_head_ld fst snd vl].
   exists (set_seen l (g_list g1)). split; [tg; rewrite <- Hv1; apply step_seen; exact HInv1|].
   destruct HI as (H1 & H2 & H3 & H4 & H5).
-  cbv beta; apply safe_bind. apply safe_alloc_reuse.
+  cbv beta iota; apply safe_bind. apply safe_alloc_reuse.
   - repeat split; assumption.
   - cbn. apply incl_refl.
   - intros m b. cbn. repeat split; cbn; auto.
-  - cbn. cbv beta; apply safe_act_upd. intros g2 a2 tr2 HInv2 Hv2. cbn [a_new_head_ld fst snd vl].
+  - cbv beta iota; apply safe_act_upd. intros g2 a2 tr2 HInv2 Hv2. cbn [a_new_head_ld fst snd vl].
     exists (set_att (set_seen l (g_list g1)) (Some (S (g_nrec g2)))). split.
     + tg; rewrite <- Hv2. apply step_new; [exact HInv2|rewrite Hv2; exact H2|apply tid_of_nz].
     + apply safe_alloc_push; cbn; auto. repeat split; cbn; auto.
@@ -124,7 +124,7 @@ Qed.
 Lemma safe_detach t m l (Q : unit -> L -> Prop) :
   Idle (Some m) O l -> (forall l', Idle None O l' -> Q tt l') -> safe t (detach m) l Q.
 Proof.
-  intros (H1 & H2 & H3 & H4 & H5) HQ. unfold detach. cbv beta; apply safe_act_upd. intros g a tr HInv Hv.
+  intros (H1 & H2 & H3 & H4 & H5) HQ. unfold detach. cbv beta iota; apply safe_act_upd. intros g a tr HInv Hv.
   cbn [a_tid_st fst snd]. exists (set_rec l None). split.
   - tg; rewrite <- Hv. apply step_detach; [exact HInv|rewrite Hv; exact H1|rewrite Hv; exact H3].
   - cbn. apply HQ. repeat split; cbn; auto.
@@ -144,21 +144,21 @@ Lemma safe_access_lock t m d l (Q : Z -> L -> Prop) :
   safe t (access_lock m) l Q.
 Proof.
   intros H1 H2 H3 Hok HQ. unfold access_lock. unfold depth_ok in Hok. apply Z.ltb_lt in Hok.
-  cbv beta; apply safe_act_keep. intros g a tr HInv Hv. cbn [a_acc_ld fst snd vz].
+  cbv beta iota; apply safe_act_keep. intros g a tr HInv Hv. cbn [a_acc_ld fst snd vz].
   split; [acc_same|].
   destruct (owner_word _ _ _ t m HInv) as (Hw & Hb); [rewrite Hv; exact H1|]. rewrite Hv, H2 in Hw, Hb. rewrite Hw.
   rewrite nest_mkw by lia. destruct (Z.eqb_spec (Z.of_nat d) 0) as [E|E].
   - assert (d = O) by lia. subst d.
-    cbv beta; apply safe_act_keep. intros g1 a1 tr1 HInv1 Hv1. cbn [a_ctl_ld fst snd vz].
+    cbv beta iota; apply safe_act_keep. intros g1 a1 tr1 HInv1 Hv1. cbn [a_ctl_ld fst snd vz].
     split; [acc_same|].
     destruct HInv1 as (_ & I2 & _). destruct (GC _ _ I2) as (b & Hb1 & _). rewrite Hb1.
-    cbv beta; apply safe_act_upd. intros g2 a2 tr2 HInv2 Hv2. cbn [a_acc_st fst snd].
+    cbv beta iota; apply safe_act_upd. intros g2 a2 tr2 HInv2 Hv2. cbn [a_acc_st fst snd].
     exists (set_dp l 1%nat b). split; [|cbn; apply HQ].
     tg; rewrite <- Hv2. change 1 with (Z.of_nat 1). apply step_acc_st; try (rewrite Hv2); auto.
     + unfold two31; cbn; lia.
     + lia.
     + left. rewrite <- Hv2. eapply cs_none; eauto. rewrite Hv2; exact H3.
-  - cbv beta; apply safe_act_upd. intros g1 a1 tr1 HInv1 Hv1. cbn [a_acc_st fst snd].
+  - cbv beta iota; apply safe_act_upd. intros g1 a1 tr1 HInv1 Hv1. cbn [a_acc_st fst snd].
     rewrite u32_mkw_succ by lia.
     exists (set_dp l (S d) (l_ph l)). split; [|cbn; apply HQ].
     tg; rewrite <- Hv1. replace (Z.of_nat d + 1) with (Z.of_nat (S d)) by lia. rewrite <- Hv1 at 2.
@@ -171,10 +171,10 @@ Lemma safe_access_unlock t m d l (Q : Z -> L -> Prop) :
   safe t (access_unlock m) l Q.
 Proof.
   intros H1 H2 H3 HQ. unfold access_unlock.
-  cbv beta; apply safe_act_keep. intros g a tr HInv Hv. cbn [a_acc_ld fst snd vz].
+  cbv beta iota; apply safe_act_keep. intros g a tr HInv Hv. cbn [a_acc_ld fst snd vz].
   split; [acc_same|].
   destruct (owner_word _ _ _ t m HInv) as (Hw & Hb); [rewrite Hv; exact H1|]. rewrite Hv, H2 in Hw, Hb. rewrite Hw.
-  cbv beta; apply safe_act_upd. intros g1 a1 tr1 HInv1 Hv1. cbn [a_acc_st fst snd].
+  cbv beta iota; apply safe_act_upd. intros g1 a1 tr1 HInv1 Hv1. cbn [a_acc_st fst snd].
   rewrite u32_mkw_pred by lia. replace (Z.of_nat (S d) - 1) with (Z.of_nat d) by lia.
   exists (set_dp l d (l_ph l)). split; [|cbn; apply HQ].
   tg; rewrite <- Hv1. rewrite <- Hv1 at 2. apply step_acc_st; try (rewrite Hv1); auto; lia.
@@ -193,9 +193,9 @@ Lemma safe_do_rlock t m d l (Q : unit -> L -> Prop) :
   Idle (Some m) d l -> depth_ok d = true -> (forall l', Idle (Some m) (S d) l' -> Q tt l') ->
   safe t (do_rlock m d) l Q.
 Proof.
-  intros (H1 & H2 & H3 & H4 & H5) Hok HQ. unfold do_rlock. cbv beta; apply safe_bind.
+  intros (H1 & H2 & H3 & H4 & H5) Hok HQ. unfold do_rlock. cbv beta iota; apply safe_bind.
   apply safe_access_lock with (d := d); auto. intros w ph.
-  cbv beta; apply safe_emit_upd. intros g a tr HInv Hv. destruct d as [|d'].
+  cbv beta iota; apply safe_emit_upd. intros g a tr HInv Hv. destruct d as [|d'].
   - exists (set_evcs (set_dp l 1%nat ph) 1%nat (Some (List.length tr))). split.
     + unfold cli. tg; rewrite <- Hv. apply step_ev_rlock1; [reflexivity|exact HInv|rewrite Hv; exact H4|rewrite Hv; cbn; lia].
     + cbn. apply HQ. repeat split; cbn; auto.
@@ -211,11 +211,11 @@ Lemma safe_do_runlock t m d l (Q : unit -> L -> Prop) :
   safe t (do_runlock m (S d)) l Q.
 Proof.
   intros (H1 & H2 & H3 & H4 & H5) HQ. unfold do_runlock. cbn [pred].
-  cbv beta; apply safe_emit_upd. intros g a tr HInv Hv.
+  cbv beta iota; apply safe_emit_upd. intros g a tr HInv Hv.
   assert (K : forall l1, l_rec l1 = Some m -> l_att l1 = None -> l_depth l1 = S d -> l_ev l1 = d -> l_w l1 = WIdle ->
               safe t (bind (access_unlock m) (fun w => Emit (cli "runlocked" [nest w]) (Ret tt))) l1 Q).
-  { intros l1 A1 A2 A3 A4 A5. cbv beta; apply safe_bind. apply safe_access_unlock with (d := d); auto. intros w.
-    cbv beta; apply safe_emit_neutral; [apply neutral_cli; reflexivity|]. cbn. apply HQ. repeat split; cbn; auto. }
+  { intros l1 A1 A2 A3 A4 A5. cbv beta iota; apply safe_bind. apply safe_access_unlock with (d := d); auto. intros w.
+    cbv beta iota; apply safe_emit_neutral; [apply neutral_cli; reflexivity|]. cbn. apply HQ. repeat split; cbn; auto. }
   destruct d as [|d'].
   - exists (set_evcs l O None). split.
     + unfold cli. tg; rewrite <- Hv. apply step_ev_runlock0; [reflexivity|exact HInv|rewrite Hv; exact H4].
@@ -302,7 +302,7 @@ Lemma safe_scan t fuel lst : forall i k gph done l (Q : bool -> L -> Prop),
 Proof.
   induction lst as [|m rest IH]; intros i k gph done l Q Hw HT HF; cbn [scan].
   - cbn. replace l with (set_w l (WPhase i k gph (PScan done [] L0))); [apply HT|]. destruct l; cbn in *. rewrite Hw. reflexivity.
-  - cbv beta; apply safe_bind. eapply safe_wait_rec; eauto.
+  - cbv beta iota; apply safe_bind. eapply safe_wait_rec; eauto.
     + cbn. eapply IH; [reflexivity| |exact HF]. intros done'. cbn. apply HT.
     + intros l'. cbn. apply HF.
 Qed.
@@ -313,11 +313,11 @@ Lemma safe_flip1 t fuel i l (Q : bool -> L -> Prop) :
   safe t (flip_and_wait fuel) l Q.
 Proof.
   intros Hw HT HF. unfold flip_and_wait.
-  cbv beta; apply safe_act_upd. intros g a tr HInv Hv. unfold a_ctl_fxor. cbn [fst snd].
+  cbv beta iota; apply safe_act_upd. intros g a tr HInv Hv. unfold a_ctl_fxor. cbn [fst snd].
   pose proof HInv as (_ & I2 & _). destruct (GC _ _ I2) as (b & Hb & _).
   exists (set_w l (WPhase i false (negb b) PFlipped)). split.
   { tg; rewrite <- Hv. apply step_flip1; auto. rewrite Hv; exact Hw. }
-  cbv beta; apply safe_act_upd. intros g1 a1 tr1 HInv1 Hv1. unfold a_head_ld. cbn [fst snd vl].
+  cbv beta iota; apply safe_act_upd. intros g1 a1 tr1 HInv1 Hv1. unfold a_head_ld. cbn [fst snd vl].
   exists (set_w l (WPhase i false (negb b) (PScan [] (g_list g1) L0))). split.
   { tg. replace (set_w l (WPhase i false (negb b) (PScan [] (g_list g1) L0)))
       with (set_w (a1 t) (WPhase i false (negb b) (PScan [] (g_list g1) L0))) by (rewrite Hv1; reflexivity).
@@ -331,10 +331,10 @@ Lemma safe_flip2 t fuel i gph done l (Q : bool -> L -> Prop) :
   safe t (flip_and_wait fuel) l Q.
 Proof.
   intros Hw HT HF. unfold flip_and_wait.
-  cbv beta; apply safe_act_upd. intros g a tr HInv Hv. unfold a_ctl_fxor. cbn [fst snd].
+  cbv beta iota; apply safe_act_upd. intros g a tr HInv Hv. unfold a_ctl_fxor. cbn [fst snd].
   exists (set_w l (WPhase i true (negb gph) PFlipped)). split.
   { tg; rewrite <- Hv. eapply step_flip2; eauto. rewrite Hv; exact Hw. }
-  cbv beta; apply safe_act_upd. intros g1 a1 tr1 HInv1 Hv1. unfold a_head_ld. cbn [fst snd vl].
+  cbv beta iota; apply safe_act_upd. intros g1 a1 tr1 HInv1 Hv1. unfold a_head_ld. cbn [fst snd vl].
   exists (set_w l (WPhase i true (negb gph) (PScan [] (g_list g1) L0))). split.
   { tg. replace (set_w l (WPhase i true (negb gph) (PScan [] (g_list g1) L0)))
       with (set_w (a1 t) (WPhase i true (negb gph) (PScan [] (g_list g1) L0))) by (rewrite Hv1; reflexivity).
@@ -347,14 +347,14 @@ Lemma safe_synchronize t fuel i l (Q : bool -> L -> Prop) :
   l_w l = WStart i -> Q true (set_w l (WFin i)) -> (forall l', Q false l') ->
   safe t (gpi_synchronize 2 fuel) l Q.
 Proof.
-  intros Hw HT HF. unfold gpi_synchronize. cbv beta; apply safe_bind.
+  intros Hw HT HF. unfold gpi_synchronize. cbv beta iota; apply safe_bind.
   apply (safe_lock_loops t fuel i l); auto; [|intros l'; cbn; apply HF].
-  cbn. cbv beta; apply safe_bind. cbn [flips_and_wait]. cbv beta; apply safe_bind.
+  cbv beta iota; apply safe_bind. cbn [flips_and_wait]. cbv beta iota; apply safe_bind.
   apply safe_flip1 with (i := i); [reflexivity| |intros l'; cbn; apply HF].
-  intros gph done. cbn. cbv beta; apply safe_bind.
+  intros gph done. cbv beta iota; apply safe_bind.
   eapply safe_flip2; [reflexivity| |intros l'; cbn; apply HF].
-  intros gph' done'. cbn. cbv beta; apply safe_bind. unfold unlock.
-  cbv beta; apply safe_act_upd. intros g a tr HInv Hv. unfold a_lock_st. cbn [fst snd].
+  intros gph' done'. cbv beta iota; apply safe_bind. unfold unlock.
+  cbv beta iota; apply safe_act_upd. intros g a tr HInv Hv. unfold a_lock_st. cbn [fst snd].
   exists (set_w l (WFin i)). split.
   - tg. replace (set_w l (WFin i)) with (set_w (a t) (WFin i)) by (rewrite Hv; reflexivity).
     eapply step_unlock; eauto. rewrite Hv; reflexivity.
@@ -370,14 +370,14 @@ Lemma safe_do_sync t fuel rec l (Q : bool -> L -> Prop) :
   safe t (do_sync 2 fuel) l Q.
 Proof.
   intros (H1 & H2 & H3 & H4 & H5) HT HF. unfold do_sync.
-  cbv beta; apply safe_emit_upd. intros g a tr HInv Hv.
+  cbv beta iota; apply safe_emit_upd. intros g a tr HInv Hv.
   exists (set_w (set_sm l (Some (List.length tr))) (WStart (List.length tr))). split.
   - tg. eapply step_ev_begin; eauto; try reflexivity.
     + rewrite Hv; exact H5.
     + rewrite Hv; reflexivity.
     + left. rewrite Hv. repeat split.
-  - cbv beta; apply safe_bind. eapply safe_synchronize; [reflexivity| |intros l'; cbn; apply HF].
-    cbn. cbv beta; apply safe_emit_upd. intros g1 a1 tr1 HInv1 Hv1.
+  - cbv beta iota; apply safe_bind. eapply safe_synchronize; [reflexivity| |intros l'; cbn; apply HF].
+    cbv beta iota; apply safe_emit_upd. intros g1 a1 tr1 HInv1 Hv1.
     exists (set_w (a1 t) WIdle). split.
     + tg. eapply step_ev_sync_end; eauto; rewrite Hv1; reflexivity.
     + cbn. apply HT. rewrite Hv1. repeat split; cbn; auto.
@@ -388,15 +388,15 @@ Lemma safe_do_retire t fuel rec p l (Q : bool -> L -> Prop) :
   safe t (do_retire 2 fuel p) l Q.
 Proof.
   intros (H1 & H2 & H3 & H4 & H5) HT HF. unfold do_retire.
-  cbv beta; apply safe_emit_upd. intros g a tr HInv Hv.
+  cbv beta iota; apply safe_emit_upd. intros g a tr HInv Hv.
   exists (set_w (set_rm l (Some (List.length tr, p))) (WStart (List.length tr))). split.
   - tg. eapply step_ev_begin; eauto; try reflexivity.
     + rewrite Hv; exact H5.
     + rewrite Hv; reflexivity.
     + right. rewrite Hv. split; [reflexivity|]. split; [reflexivity|]. exists p. split; [|reflexivity].
       unfold is_retire, cli_is. cbn. apply Z.eqb_refl.
-  - cbv beta; apply safe_bind. eapply safe_synchronize; [reflexivity| |intros l'; cbn; apply HF].
-    cbn. cbv beta; apply safe_emit_upd. intros g1 a1 tr1 HInv1 Hv1.
+  - cbv beta iota; apply safe_bind. eapply safe_synchronize; [reflexivity| |intros l'; cbn; apply HF].
+    cbv beta iota; apply safe_emit_upd. intros g1 a1 tr1 HInv1 Hv1.
     exists (set_w (a1 t) WIdle). split.
     + tg. eapply step_ev_dispose; eauto; rewrite Hv1; reflexivity.
     + cbn. apply HT. rewrite Hv1. repeat split; cbn; auto.
@@ -404,12 +404,12 @@ Qed.
 
 Lemma safe_do_touch t l (Q : unit -> L -> Prop) : Q tt l -> safe t do_touch l Q.
 Proof.
-  intros HQ. unfold do_touch. cbv beta; apply safe_act_keep. intros g a tr HInv Hv. cbn [a_src_ld fst snd vz].
+  intros HQ. unfold do_touch. cbv beta iota; apply safe_act_keep. intros g a tr HInv Hv. cbn [a_src_ld fst snd vz].
   split; [acc_same|].
   destruct (g_src g =? 0); [exact HQ|].
-  cbv beta; apply safe_act_keep. intros g1 a1 tr1 HInv1 Hv1. cbn [a_payload_ld fst snd].
+  cbv beta iota; apply safe_act_keep. intros g1 a1 tr1 HInv1 Hv1. cbn [a_payload_ld fst snd].
   split; [acc_same|].
-  cbv beta; apply safe_emit_neutral; [apply neutral_cli; reflexivity|exact HQ].
+  cbv beta iota; apply safe_emit_neutral; [apply neutral_cli; reflexivity|exact HQ].
 Qed.
 
 Definition IdleS (s : lst) (l : L) : Prop :=
@@ -423,28 +423,28 @@ Proof.
   intros (HI & Hnd). destruct s as [rec d]. cbn [my_rec my_depth] in *.
   destruct o; cbn [run_op my_rec my_depth].
   - (* attach *) destruct rec as [m|]; [split; assumption|]. rewrite (Hnd eq_refl) in *.
-    cbv beta; apply safe_bind. eapply safe_weaken; [|apply safe_attach; exact HI].
+    cbv beta iota; apply safe_bind. eapply safe_weaken; [|apply safe_attach; exact HI].
     intros [m|] l' HQ; cbn in *; [|exact I].
-    cbv beta; apply safe_emit_neutral; [apply neutral_cli; reflexivity|]. split; [exact HQ|discriminate].
+    cbv beta iota; apply safe_emit_neutral; [apply neutral_cli; reflexivity|]. split; [exact HQ|discriminate].
   - (* detach *) destruct rec as [m|]; [|split; assumption]. destruct d as [|d]; [|split; assumption].
-    cbv beta; apply safe_bind. apply safe_detach; [exact HI|]. intros l' HI'.
-    cbv beta; apply safe_emit_neutral; [apply neutral_cli; reflexivity|]. split; [exact HI'|reflexivity].
+    cbv beta iota; apply safe_bind. apply safe_detach; [exact HI|]. intros l' HI'.
+    cbv beta iota; apply safe_emit_neutral; [apply neutral_cli; reflexivity|]. split; [exact HI'|reflexivity].
   - (* rlock *) destruct rec as [m|]; [|split; assumption]. destruct (depth_ok d) eqn:Hok; [|split; assumption].
-    cbv beta; apply safe_bind. apply safe_do_rlock; auto. intros l' HI'. split; [exact HI'|discriminate].
+    cbv beta iota; apply safe_bind. apply safe_do_rlock; auto. intros l' HI'. split; [exact HI'|discriminate].
   - (* runlock *) destruct rec as [m|]; [|split; assumption]. destruct d as [|d]; [split; assumption|].
-    cbv beta; apply safe_bind. apply safe_do_runlock; auto. intros l' HI'. split; [exact HI'|discriminate].
+    cbv beta iota; apply safe_bind. apply safe_do_runlock; auto. intros l' HI'. split; [exact HI'|discriminate].
   - (* sync *) destruct d as [|d]; [|split; assumption].
-    cbv beta; apply safe_bind. eapply safe_do_sync; [exact HI| |intros l'; exact I].
+    cbv beta iota; apply safe_bind. eapply safe_do_sync; [exact HI| |intros l'; exact I].
     intros l' HI'. split; [exact HI'|exact Hnd].
   - (* retire *) destruct d as [|d]; [|split; assumption].
-    cbv beta; apply safe_bind. eapply safe_do_retire; [exact HI| |intros l'; exact I].
+    cbv beta iota; apply safe_bind. eapply safe_do_retire; [exact HI| |intros l'; exact I].
     intros l' HI'. split; [exact HI'|exact Hnd].
-  - (* publish *) cbv beta; apply safe_act_keep. intros g a tr HInv Hv. cbn [a_src_st fst snd].
+  - (* publish *) cbv beta iota; apply safe_act_keep. intros g a tr HInv Hv. cbn [a_src_st fst snd].
     split; [acc_same|]. split; assumption.
-  - (* unpublish *) cbv beta; apply safe_act_keep. intros g a tr HInv Hv. cbn [a_src_st fst snd].
+  - (* unpublish *) cbv beta iota; apply safe_act_keep. intros g a tr HInv Hv. cbn [a_src_st fst snd].
     split; [acc_same|]. split; assumption.
   - (* touch *) destruct d as [|d]; [split; assumption|].
-    cbv beta; apply safe_bind. apply safe_do_touch. split; assumption.
+    cbv beta iota; apply safe_bind. apply safe_do_touch. split; assumption.
 Qed.
 
 Lemma safe_leave_all t m d : forall l (Q : unit -> L -> Prop),
@@ -452,31 +452,31 @@ Lemma safe_leave_all t m d : forall l (Q : unit -> L -> Prop),
 Proof.
   induction d as [|d IH]; intros l Q HI HQ; cbn [leave_all].
   - apply HQ; exact HI.
-  - cbv beta; apply safe_bind. apply safe_do_runlock; [exact HI|]. intros l' HI'. apply IH; auto.
+  - cbv beta iota; apply safe_bind. apply safe_do_runlock; [exact HI|]. intros l' HI'. apply IH; auto.
 Qed.
 
 Lemma safe_finish t s l : IdleS s l -> safe t (finish s) l (@Conc.QTrue L).
 Proof.
   intros (HI & Hnd). destruct s as [rec d]. cbn [my_rec my_depth] in *. unfold finish. cbn [my_rec my_depth].
   destruct rec as [m|]; [|exact I].
-  cbv beta; apply safe_bind. apply safe_leave_all with (d := d); [exact HI|]. intros l' HI'.
-  cbv beta; apply safe_bind. apply safe_detach; [exact HI'|]. intros l'' _.
-  cbv beta; apply safe_emit_neutral; [apply neutral_cli; reflexivity|exact I].
+  cbv beta iota; apply safe_bind. apply safe_leave_all with (d := d); [exact HI|]. intros l' HI'.
+  cbv beta iota; apply safe_bind. apply safe_detach; [exact HI'|]. intros l'' _.
+  cbv beta iota; apply safe_emit_neutral; [apply neutral_cli; reflexivity|exact I].
 Qed.
 
 Lemma safe_run_ops t fuel os : forall s l, IdleS s l -> safe t (run_ops 2 fuel t s os) l (@Conc.QTrue L).
 Proof.
   induction os as [|o r IH]; intros s l HI; cbn [run_ops].
   - apply safe_finish; exact HI.
-  - cbv beta; apply safe_bind. eapply safe_weaken; [|apply safe_run_op; exact HI].
+  - cbv beta iota; apply safe_bind. eapply safe_weaken; [|apply safe_run_op; exact HI].
     intros [s'|] l' HQ; cbn in HQ.
     + apply IH; exact HQ.
-    + cbv beta; apply safe_emit_neutral; [apply neutral_cli; reflexivity|exact I].
+    + cbv beta iota; apply safe_emit_neutral; [apply neutral_cli; reflexivity|exact I].
 Qed.
 
 Lemma safe_thread t fuel os : safe t (thread_prog 2 fuel t os) l0 (@Conc.QTrue L).
 Proof.
-  unfold thread_prog. cbv beta; apply safe_act_keep. intros g a tr HInv Hv. cbn [a_begin fst snd].
+  unfold thread_prog. cbv beta iota; apply safe_act_keep. intros g a tr HInv Hv. cbn [a_begin fst snd].
   split; [acc_same|].
   apply safe_run_ops. split; [repeat split|reflexivity].
 Qed.
